@@ -1,127 +1,59 @@
 /-
-  Buidl.Proofs.HD — helper lemmas for C08 (BIP32): Python-string lemmas (split / join / normalisation),
-  the loops of traverse, the group-law facts used by public/private consistency, the 78-byte codec,
-  and the correspondence with Buidl.Spec.BIP32.
+  Buidl.Proofs.HD — the facts about secp256k1 that the C08 theorems of Buidl.Proofs.HDPath are stated
+  relative to, discharged from Buidl.Proofs.Secp256k1 / SecpCodec (C03):
+    groupAdd        ((a + b) mod N)·G = b·G + a·G
+    sadd_comm_G     a·G + X = X + a·G for every curve point X
+    sec_roundtrip   parse(sec(Q)) = Q and |sec(Q)| = 33 for every curve point Q
+    smul_G_ne_inf   k·G ≠ ∞ for 1 ≤ k < N, smul_G_valid
 -/
-import Buidl.Model.HD
-import Buidl.Spec.BIP32
-import Buidl.Proofs.Bytes
+import Buidl.Proofs.HDPath
 import Buidl.Proofs.Secp256k1
+import Buidl.Proofs.SecpCodec
+import Buidl.Proofs.Base58
 namespace Buidl.HD
-open Buidl Buidl.EC Buidl.PyStr
+open Buidl Buidl.EC
 
-/-! ## Python strings -/
+attribute [local irreducible] pmul
 
-theorem split_ne_nil (sep : Char) (s : Str) : split sep s ≠ [] := by
-  cases s with
-  | nil => simp [split]
-  | cons x xs =>
-    simp only [split]
-    split
-    · simp
-    · split <;> simp
+theorem smul_G_valid (k : Int) : Valid P A B (smul k G) := smul_valid G_valid k
 
-theorem split_append (sep : Char) (a b : Str) : split sep (a ++ sep :: b) = split sep a ++ split sep b := by
-  induction a with
-  | nil => simp [split]
-  | cons x a ih =>
-    simp only [List.cons_append, split]
-    by_cases hx : x = sep
-    · simp [hx, ih]
-    · simp only [hx, if_false, ih]
-      cases hs : split sep a with
-      | nil => exact absurd hs (split_ne_nil sep a)
-      | cons p ps => simp
+theorem groupAdd : GroupAdd := by
+  intro a b
+  have h1 : (((a + b) % N : Nat) : Int) = ((a : Int) + (b : Int)) % (N : Int) := by
+    push_cast; rfl
+  rw [h1, smul_emod, ← smul_add G_tors, sadd_comm (smul_G_valid _) (smul_G_valid _)]
 
-theorem components_append (p rest : Str) :
-    components (p ++ '/' :: rest) = components p ++ split '/' rest := by
-  unfold components
-  rw [split_append]
-  cases hs : split '/' p with
-  | nil => exact absurd hs (split_ne_nil _ p)
-  | cons h t => simp
+theorem sadd_comm_G (a : Nat) {X : Pt} (hX : Valid P A B X) :
+    sadd (smul (a : Int) G) X = sadd X (smul (a : Int) G) :=
+  sadd_comm (smul_G_valid _) hX
 
-theorem components_m_slash (rest : Str) : components ('m' :: '/' :: rest) = split '/' rest := by
-  simp [components, split]
+theorem sec_roundtrip {Q : Pt} (hQ : Valid P A B Q) (s : Bytes) (h : sec Q true = some s) :
+    s.length = 33 ∧ parsePoint s = some Q :=
+  ⟨by simpa using sec_length h, parsePoint_sec hQ true h⟩
 
-theorem normPath_append (a b : Str) : normPath (a ++ b) = normPath a ++ normPath b := by
-  simp [normPath, lower, replaceChar]
+theorem smul_G_ne_inf {k : Nat} (h1 : 1 ≤ k) (h2 : k < N) : smul (k : Int) G ≠ .inf := by
+  intro h
+  have hd := (smul_G_eq_inf_iff (k : Int)).mp h
+  have : (N : Int) ≤ (k : Int) := Int.le_of_dvd (by omega) hd
+  omega
 
-theorem normPath_m_slash (rest : Str) : normPath ('m' :: '/' :: rest) = 'm' :: '/' :: normPath rest := by
-  simp [normPath, lower, replaceChar]
-  decide
+theorem sec_smul_G_isSome {k : Nat} (h1 : 1 ≤ k) (h2 : k < N) : (sec (smul (k : Int) G) true).isSome := by
+  cases h : smul (k : Int) G with
+  | inf => exact absurd h (smul_G_ne_inf h1 h2)
+  | aff x y => simp [sec]
 
-theorem startsWith_m_normPath_append (p rest : Str) :
-    startsWith ['m'] (normPath (p ++ '/' :: rest)) = startsWith ['m'] (normPath p) := by
-  cases p with
-  | nil => simp [startsWith, normPath, lower, replaceChar]; decide
-  | cons c p => simp [startsWith, normPath, lower, replaceChar]
-
-/-! ## the loops of traverse -/
-
-section walk
-variable (hmac : Bytes → Bytes → Bytes) (h160 : Bytes → Bytes)
-
-theorem priv_walk_append (k : HDPriv) (cs ds : List Str) :
-    k.walk hmac h160 (cs ++ ds) = (k.walk hmac h160 cs).bind (fun k' => k'.walk hmac h160 ds) := by
-  induction cs generalizing k with
-  | nil => simp [HDPriv.walk]
-  | cons c cs ih =>
-    simp only [List.cons_append, HDPriv.walk]
-    cases privIndex c with
-    | none => simp
-    | some i =>
-      cases k.childI hmac h160 i with
-      | none => simp
-      | some k' => simpa using ih k'
-
-theorem pub_walk_append (p : HDPub) (cs ds : List Str) :
-    p.walk hmac h160 (cs ++ ds) = (p.walk hmac h160 cs).bind (fun p' => p'.walk hmac h160 ds) := by
-  induction cs generalizing p with
-  | nil => simp [HDPub.walk]
-  | cons c cs ih =>
-    simp only [List.cons_append, HDPub.walk]
-    cases pubIndex c with
-    | none => simp
-    | some i =>
-      cases p.childI hmac h160 i with
-      | none => simp
-      | some p' => simpa using ih p'
-
-theorem priv_traverse_append (k : HDPriv) (p rest : Str) :
-    k.traverse hmac h160 (p ++ '/' :: rest)
-      = (k.traverse hmac h160 p).bind (fun k' => k'.traverse hmac h160 ('m' :: '/' :: rest)) := by
-  have hm : ∀ k' : HDPriv, k'.traverse hmac h160 ('m' :: '/' :: rest) = k'.walk hmac h160 (split '/' (normPath rest)) := by
-    intro k'
-    simp [HDPriv.traverse, normPath_m_slash, components_m_slash, startsWith]
-  simp only [HDPriv.traverse, startsWith_m_normPath_append]
-  by_cases hs : startsWith ['m'] (normPath p) = true
-  · simp only [hs, not_true_eq_false, if_false]
-    rw [normPath_append]
-    have : normPath ('/' :: rest) = '/' :: normPath rest := by simp [normPath, lower, replaceChar]; decide
-    rw [this, components_append, priv_walk_append]
-    congr 1
-    funext k'
-    exact (hm k').symm
-  · simp [hs]
-
-theorem pub_traverse_append (k : HDPub) (p rest : Str) :
-    k.traverse hmac h160 (p ++ '/' :: rest)
-      = (k.traverse hmac h160 p).bind (fun k' => k'.traverse hmac h160 ('m' :: '/' :: rest)) := by
-  have hm : ∀ k' : HDPub, k'.traverse hmac h160 ('m' :: '/' :: rest) = k'.walk hmac h160 (split '/' (normPath rest)) := by
-    intro k'
-    simp [HDPub.traverse, normPath_m_slash, components_m_slash, startsWith]
-  simp only [HDPub.traverse, startsWith_m_normPath_append]
-  by_cases hs : startsWith ['m'] (normPath p) = true
-  · simp only [hs, not_true_eq_false, if_false]
-    rw [normPath_append]
-    have : normPath ('/' :: rest) = '/' :: normPath rest := by simp [normPath, lower, replaceChar]; decide
-    rw [this, components_append, pub_walk_append]
-    congr 1
-    funext k'
-    exact (hm k').symm
-  · simp [hs]
-
-end walk
+/-- Base58Check round trip from `Buidl.Base58.decodeCombined_encodeBase58` (C09), for any `hash256` that
+    returns at least four bytes -/
+theorem b58RoundTrip (hash256 : Bytes → Bytes) (hh : ∀ b, 4 ≤ (hash256 b).length) : B58RoundTrip hash256 := by
+  intro p s h
+  unfold Base58.encodeBase58Checksum at h
+  have hd := Base58.decodeCombined_encodeBase58 _ _ h
+  have hc : ((hash256 p).take 4).length = 4 := by
+    have := hh p; simp; omega
+  unfold Base58.rawDecodeBase58
+  simp only [hd, Gen.b58EncChecksumWidth, Gen.b58DecChecksumTail, Gen.b58DecHashedCut, Gen.b58DecHashWidth,
+    Gen.b58DecReturnCut, Base58.pyLast, Base58.pyButLast, List.length_append, hc, Nat.add_sub_cancel]
+  rw [take_append_len _ _ _ rfl, drop_append_len _ _ _ rfl]
+  simp
 
 end Buidl.HD
